@@ -6,6 +6,7 @@ package main
 // fork's *insertions*; what is left over on the reference side is a *divergence*.
 
 import (
+	"golang.org/x/tools/go/types/typeutil"
 	"fmt"
 	"go/ast"
 	"go/token"
@@ -116,6 +117,7 @@ type embedder struct {
 	fkLocals map[types.Object]bool // fork-only locals (declared by insertions), filled after pass 1
 	d        *FuncDelta
 	stripLog []ast.Expr
+	pair     int
 }
 
 func (e *embedder) refKey(s ast.Stmt) string {
@@ -202,6 +204,8 @@ func newEmbedder(w *World, refInfo, forkInfo *types.Info, fo *ForkOnly, recvOnly
 
 // embed aligns ref and fork statement lists.
 func (e *embedder) embed(ref, fork []ast.Stmt, ctx string) {
+	fork = e.inlineHelpers(fork)
+	ref, fork = normSwitches(ref), normSwitches(fork)
 	n, m := len(ref), len(fork)
 	rk := make([]string, n)
 	fk := make([]string, m)
@@ -472,10 +476,18 @@ func (w *World) embedFunc(pair int, name string, fo *ForkOnly) (*FuncDelta, erro
 	var d *FuncDelta
 	fkLocals := map[types.Object]bool{}
 	for pass := 0; pass < 2; pass++ {
+		ptrTemps(fp.TypesInfo, fd)
+		valTemps(fp.TypesInfo, fd)
+		valTemps(rp.TypesInfo, rd)
 		e := newEmbedder(w, rp.TypesInfo, fp.TypesInfo, fo, recvOnly, name)
+		e.pair = pair
 		e.fkLocals = fkLocals
 		installLiteralStrip(e)
-		e.embed(rd.Body.List, fd.Body.List, "")
+		rl, fl := rd.Body.List, fd.Body.List
+		if fd.Type.Results == nil || len(fd.Type.Results.List) == 0 {
+			rl, fl = foldEarlyReturns(rl), foldEarlyReturns(fl) // `if c { …; return }; rest` = `if c { … } else { rest }`
+		}
+		e.embed(rl, fl, "")
 		d = e.d
 		next := map[types.Object]bool{}
 		for _, in := range d.Ins {
@@ -599,4 +611,324 @@ func isLocalStructField(info *types.Info, lit *ast.CompositeLit) bool {
 		return nt.Obj().Parent() != nt.Obj().Pkg().Scope()
 	}
 	return false
+}
+
+// normSwitches rewrites, on both sides alike, a tag-less switch whose cases have one condition each and
+// whose bodies neither fall through nor break out of it into the if / else-if chain it abbreviates
+// (`switch { case c: A; default: B }` = `if c { A } else { B }`). Sub-expressions keep their nodes, so
+// resolved objects and types stay available.
+func normSwitches(list []ast.Stmt) []ast.Stmt {
+	var out []ast.Stmt
+	changed := false
+	for _, st := range list {
+		sw, ok := st.(*ast.SwitchStmt)
+		if !ok || sw.Tag != nil || sw.Init != nil || len(sw.Body.List) == 0 {
+			out = append(out, st)
+			continue
+		}
+		simple := true
+		var def *ast.CaseClause
+		var cases []*ast.CaseClause
+		for i, cl := range sw.Body.List {
+			cc := cl.(*ast.CaseClause)
+			if cc.List == nil {
+				if i != len(sw.Body.List)-1 {
+					simple = false // a default clause that is not last is still taken last: keep the switch
+				}
+				def = cc
+				continue
+			}
+			if len(cc.List) != 1 {
+				simple = false
+			}
+			cases = append(cases, cc)
+		}
+		// no break / fallthrough that refers to the switch
+		var scan func(n ast.Node, inLoop bool)
+		scan = func(n ast.Node, inLoop bool) {
+			ast.Inspect(n, func(m ast.Node) bool {
+				switch x := m.(type) {
+				case *ast.FuncLit:
+					return false
+				case *ast.ForStmt:
+					scan(x.Body, true)
+					return false
+				case *ast.RangeStmt:
+					scan(x.Body, true)
+					return false
+				case *ast.SwitchStmt, *ast.TypeSwitchStmt, *ast.SelectStmt:
+					if m != ast.Node(sw) {
+						// a nested switch owns its unlabelled breaks; labelled ones are not followed: keep the switch
+						ast.Inspect(m, func(k ast.Node) bool {
+							if b, ok := k.(*ast.BranchStmt); ok && b.Label != nil {
+								simple = false
+							}
+							return true
+						})
+						return false
+					}
+				case *ast.BranchStmt:
+					if x.Tok == token.FALLTHROUGH || x.Label != nil || (x.Tok == token.BREAK && !inLoop) {
+						simple = false
+					}
+				}
+				return true
+			})
+		}
+		scan(sw, false)
+		if !simple || len(cases) == 0 {
+			out = append(out, st)
+			continue
+		}
+		var chain ast.Stmt
+		if def != nil {
+			chain = &ast.BlockStmt{Lbrace: def.Pos(), List: def.Body, Rbrace: def.End()}
+		}
+		for i := len(cases) - 1; i >= 0; i-- {
+			cc := cases[i]
+			chain = &ast.IfStmt{If: cc.Pos(), Cond: cc.List[0], Body: &ast.BlockStmt{Lbrace: cc.Colon, List: cc.Body, Rbrace: cc.End()}, Else: chain}
+		}
+		out = append(out, chain)
+		changed = true
+	}
+	if !changed {
+		return list
+	}
+	return out
+}
+
+// inlineArg: parameters (and receivers) of fork-only helpers whose statement-level calls were expanded in
+// place by inlineHelpers, bound to the argument expression of the call; the canonical printer prints
+// the parameter as that expression.
+var inlineArg = map[types.Object]ast.Expr{}
+var inlinedBody = map[*ast.ExprStmt][]ast.Stmt{}
+
+// inlineHelpers replaces a statement `h(args)` / `x.h(args)` of a DELTA function, h a fork-only function of the
+// same package, by the statements of h's body, so that inherited statements the fork moved into a helper
+// are compared where they execute. Only when nothing can tell the difference: the body has no return,
+// defer, go, label or closure; every argument (and the receiver) is a call-free path (or the address of
+// one, for a pointer parameter used through selectors); no parameter is re-assigned or has its address
+// taken; and no assignment in the body writes a location that an argument path reads.
+func (e *embedder) inlineHelpers(list []ast.Stmt) []ast.Stmt {
+	var out []ast.Stmt
+	changed := false
+	info := e.fk.info
+	plainCanon := &astCanon{info: info}
+	for _, st := range list {
+		es, ok := st.(*ast.ExprStmt)
+		if !ok {
+			out = append(out, st)
+			continue
+		}
+		if body, done := inlinedBody[es]; done {
+			if body != nil {
+				out = append(out, body...)
+				changed = true
+			} else {
+				out = append(out, st)
+			}
+			continue
+		}
+		inlinedBody[es] = nil
+		call, ok := es.X.(*ast.CallExpr)
+		if !ok || call.Ellipsis.IsValid() {
+			out = append(out, st)
+			continue
+		}
+		f, _ := typeutil.Callee(info, call).(*types.Func)
+		if f == nil || f.Pkg() == nil || f.Pkg().Path() != forkPath(e.pair) {
+			out = append(out, st)
+			continue
+		}
+		rel := relNameOfFunc(f)
+		if rel == "" || e.w.funcIdx[refPath(e.pair)][rel] != nil {
+			out = append(out, st)
+			continue
+		}
+		hd, _ := e.w.FuncDecl(forkPath(e.pair), rel)
+		if hd == nil || hd.Body == nil || len(hd.Body.List) == 0 {
+			out = append(out, st)
+			continue
+		}
+		if hd.Type.Results != nil && len(hd.Type.Results.List) > 0 {
+			out = append(out, st)
+			continue
+		}
+		// bind parameters
+		bind := map[types.Object]ast.Expr{}
+		okBind := true
+		plainPath := func(x ast.Expr) bool {
+			pure := true
+			ast.Inspect(x, func(n ast.Node) bool {
+				switch y := n.(type) {
+				case *ast.CallExpr:
+					if id, isId := y.Fun.(*ast.Ident); isId {
+						if b, isB := info.Uses[id].(*types.Builtin); isB && (b.Name() == "len" || b.Name() == "cap") {
+							return true
+						}
+					}
+					pure = false
+				case *ast.FuncLit, *ast.CompositeLit:
+					pure = false
+				}
+				return pure
+			})
+			return pure
+		}
+		bindOne := func(name *ast.Ident, arg ast.Expr) {
+			o := info.Defs[name]
+			if o == nil || name.Name == "_" {
+				return
+			}
+			arg = ast.Unparen(arg)
+			if u, isU := arg.(*ast.UnaryExpr); isU && u.Op == token.AND {
+				arg = ast.Unparen(u.X) // a pointer parameter used through selectors names the location itself
+			}
+			if !plainPath(arg) {
+				okBind = false
+				return
+			}
+			bind[o] = arg
+		}
+		if hd.Recv != nil && len(hd.Recv.List) == 1 && len(hd.Recv.List[0].Names) == 1 {
+			if sel, isSel := call.Fun.(*ast.SelectorExpr); isSel {
+				bindOne(hd.Recv.List[0].Names[0], sel.X)
+			} else {
+				okBind = false
+			}
+		}
+		var pnames []*ast.Ident
+		for _, fld := range hd.Type.Params.List {
+			if _, isV := fld.Type.(*ast.Ellipsis); isV {
+				okBind = false
+			}
+			pnames = append(pnames, fld.Names...)
+		}
+		if len(pnames) != len(call.Args) {
+			okBind = false
+		}
+		for i := 0; okBind && i < len(pnames); i++ {
+			bindOne(pnames[i], call.Args[i])
+		}
+		// the body; a trailing `if c { …; return }; rest…` is the same as `if c { … } else { rest… }` at the end of a function
+		hbody := foldEarlyReturns(hd.Body.List)
+		// the body
+		var argStrs []string
+		for _, a := range bind {
+			argStrs = append(argStrs, plainCanon.expr(a))
+		}
+		if okBind {
+			ast.Inspect(&ast.BlockStmt{List: hbody}, func(n ast.Node) bool {
+				switch x := n.(type) {
+				case *ast.ReturnStmt, *ast.DeferStmt, *ast.GoStmt, *ast.LabeledStmt, *ast.FuncLit, *ast.SelectStmt:
+					okBind = false
+				case *ast.BranchStmt:
+					if x.Label != nil || x.Tok == token.GOTO {
+						okBind = false
+					}
+				case *ast.UnaryExpr:
+					if id, isId := ast.Unparen(x.X).(*ast.Ident); isId && x.Op == token.AND && bind[info.Uses[id]] != nil {
+						okBind = false
+					}
+					// explicit dereference of a parameter bound to an address-of argument would print wrongly
+				case *ast.StarExpr:
+					if id, isId := ast.Unparen(x.X).(*ast.Ident); isId && bind[info.Uses[id]] != nil {
+						okBind = false
+					}
+				case *ast.IncDecStmt:
+					if id, isId := ast.Unparen(x.X).(*ast.Ident); isId && bind[info.Uses[id]] != nil {
+						okBind = false
+					}
+				case *ast.AssignStmt:
+					sub := &astCanon{info: info, subst: map[types.Object]string{}}
+					for o, a := range bind {
+						sub.subst[o] = plainCanon.expr(a)
+					}
+					for _, l := range x.Lhs {
+						if id, isId := ast.Unparen(l).(*ast.Ident); isId && bind[info.Uses[id]] != nil {
+							okBind = false
+						}
+						ls := sub.expr(l)
+						for _, as := range argStrs {
+							if as == ls || strings.HasPrefix(as, ls+".") || strings.HasPrefix(as, ls+"[") {
+								okBind = false // the body moves what an argument path names
+							}
+						}
+					}
+				case *ast.CallExpr:
+					// the helper must not call itself
+					if g, _ := typeutil.Callee(info, x).(*types.Func); g == f {
+						okBind = false
+					}
+				}
+				return okBind
+			})
+		}
+		if !okBind {
+			out = append(out, st)
+			continue
+		}
+		for o, a := range bind {
+			if prev, had := inlineArg[o]; had && plainCanon.expr(prev) != plainCanon.expr(a) {
+				okBind = false // the helper was expanded at another call site with other arguments
+			}
+		}
+		if !okBind {
+			out = append(out, st)
+			continue
+		}
+		for o, a := range bind {
+			inlineArg[o] = a
+		}
+		body := e.inlineHelpers(hbody)
+		inlinedBody[es] = body
+		out = append(out, body...)
+		changed = true
+	}
+	if !changed {
+		return list
+	}
+	return out
+}
+
+// foldEarlyReturns rewrites, at the end of a result-less function body, `…; if c { S; return }; T` into
+// `…; if c { S } else { T }` (recursively in T), and drops a bare trailing `return`.
+func foldEarlyReturns(list []ast.Stmt) []ast.Stmt {
+	if n := len(list); n > 0 {
+		if r, ok := list[n-1].(*ast.ReturnStmt); ok && len(r.Results) == 0 {
+			return foldEarlyReturns(list[:n-1])
+		}
+	}
+	for i, st := range list {
+		ifs, ok := st.(*ast.IfStmt)
+		if !ok || ifs.Else != nil || len(ifs.Body.List) == 0 {
+			continue
+		}
+		r, ok := ifs.Body.List[len(ifs.Body.List)-1].(*ast.ReturnStmt)
+		if !ok || len(r.Results) != 0 {
+			continue
+		}
+		// no other return inside the then-branch
+		inner := false
+		for _, b := range ifs.Body.List[:len(ifs.Body.List)-1] {
+			ast.Inspect(b, func(n ast.Node) bool {
+				if _, isRet := n.(*ast.ReturnStmt); isRet {
+					inner = true
+				}
+				return !inner
+			})
+		}
+		if inner {
+			return list
+		}
+		rest := foldEarlyReturns(list[i+1:])
+		folded := &ast.IfStmt{If: ifs.If, Init: ifs.Init, Cond: ifs.Cond,
+			Body: &ast.BlockStmt{Lbrace: ifs.Body.Lbrace, List: ifs.Body.List[:len(ifs.Body.List)-1], Rbrace: ifs.Body.Rbrace}}
+		if len(rest) > 0 {
+			folded.Else = &ast.BlockStmt{Lbrace: rest[0].Pos(), List: rest, Rbrace: rest[len(rest)-1].End()}
+		}
+		out := append(append([]ast.Stmt{}, list[:i]...), folded)
+		return out
+	}
+	return list
 }
